@@ -13,7 +13,8 @@ SPEC = {
         ('K-next(fields obs/obs_ne/length)', 'next', '^fields:(obs|length)'),
         ('K-first(start fields)', 'first', '^inv:'),
         ("non-emitting layers(calls are non-emitting for this observation with the observation segment; emitting for the next)", 'ne_inner', r'^ne-inner:(one-non|layer)'),
-        ("non-emitting chains link to the NEXT observation with an emitting call", 'ne_end', r'^ne-end:one-emitting')],
+        ("non-emitting chains link to the NEXT observation with an emitting call", 'ne_end', r'^ne-end:one-emitting'),
+        ("_build_node_path(final entry taken from lattice[start_idx], deepest live layer preferred as documented)", 'final_choice', r'choose:')],
     'bounded': [
         ('alignment-postcondition', suites.case_C03, 1500, 25000, RULE + '; ' + 'non-trivial = non-empty result with an early stop or a non-emitting state on the path; unique on/off', '')],
 }
